@@ -607,3 +607,23 @@ def register(reg):      # noqa: F811
     _register_10(reg)
     reg.add_lemma(Lemma('prop.C05.layer_ids_injective', direct=_c05_ids, properties=('C05',),
                         doc='offset above all group ids + 10*row + component (0..2): equal layer ids => same group (and same component)'))
+
+
+def _cnt_ext_base():
+    a, b = z3.Const('a', BoolArr), z3.Const('b', BoolArr)
+    z = z3.IntVal(0)
+    return [cnt_def(a, z), cnt_def(b, z)], cnt(a, 0) == cnt(b, 0)
+
+
+def _cnt_ext_step():
+    a, b = z3.Const('a', BoolArr), z3.Const('b', BoolArr); j = z3.Int('j')
+    return [j >= 0, a[j] == b[j], cnt(a, j) == cnt(b, j), cnt_def(a, j), cnt_def(b, j)], cnt(a, j + 1) == cnt(b, j + 1)
+
+
+_register_11 = register
+
+
+def register(reg):      # noqa: F811
+    _register_11(reg)
+    reg.add_lemma(Lemma('cnt_ext', base=_cnt_ext_base, step=_cnt_ext_step, properties=('C04',),
+                        doc='pointwise equal masks have equal counts'))
